@@ -577,13 +577,13 @@ func runFormatTable(rc *RunCtx) {
 	s := &ftShared{}
 	nClients := 2 + tp.Choose(7, "nclients")
 	valID := 0
-	formats := []string{"json", "text", "x"}
+	formats := []string{"json", "text", "x", ""} // (the empty string is a key like any other)
 	var desc []string
 	for c := 0; c < nClients; c++ {
 		k := 1 + tp.Choose(4, "nops")
 		var ops []*ftOp
 		for i := 0; i < k; i++ {
-			o := &ftOp{format: formats[tp.Choose(3, "fmt")], write: tp.Choose(2, "w") == 0}
+			o := &ftOp{format: formats[tp.Choose(len(formats), "fmt")], write: tp.Choose(2, "w") == 0}
 			if o.write {
 				valID++
 				o.val = valID
@@ -793,18 +793,23 @@ func runCloudEvents(rc *RunCtx) {
 	tp := rc.Tape
 	sim := rc.Sim
 	ff := &cloudevents.FormatterFilter{}
+	// (an "empty" URL is one that RENDERS as the empty string: the zero value, but also values with only
+	// fields set that String() does not print on their own)
+	emptyURL := func() *url.URL {
+		return []*url.URL{{}, {OmitHost: true}, {RawPath: "/a%2Fb"}, {RawFragment: "frag"}, {ForceQuery: false, RawPath: "x"}}[tp.Choose(5, "empty-url-kind")]
+	}
 	srcMode := tp.Choose(6, "source") // 0 nil, 1 empty, else valid
 	switch srcMode {
 	case 0:
 	case 1:
-		ff.Source = &url.URL{}
+		ff.Source = emptyURL()
 	default:
 		ff.Source, _ = url.Parse("https://example.com/src?a=b")
 	}
 	schemaMode := tp.Choose(5, "schema") // 0,1 unset; 2 empty; else set
 	switch schemaMode {
 	case 2:
-		ff.Schema = &url.URL{}
+		ff.Schema = emptyURL()
 	case 3, 4:
 		ff.Schema, _ = url.Parse("https://example.com/schema.json")
 	}
